@@ -599,3 +599,52 @@ func CloseOnSilentLink(res *fw.Result, seed int64) error {
 	res.Eval(true, []interface{}{"close-on-silent-link"})
 	return nil
 }
+
+// CancelledThenMore: a call whose context is cancelled while it is in flight and which then completes
+// (the handler answers after all), followed by further calls on the same client: the cancel request's
+// local completion must not reach anybody, every later call gets its own response.
+func CancelledThenMore(d *fw.Driver, res *fw.Result, seed int64) error {
+	run, closer, cancel, err := newRunner(seed+41, 1, true)
+	if err != nil {
+		return err
+	}
+	defer run.E.Close()
+	defer cancel()
+	sig := "calls after a cancelled call that completed"
+	base := nextToks(40)
+	for round := 0; round < 3; round++ {
+		tok := base + round*10
+		cctx, cc := context.WithCancel(run.ctx)
+		done := make(chan struct{})
+		go func() { defer close(done); run.CL.Block(cctx, tok) }()
+		for w := 0; w < 3000 && run.E.H.C.Entered(tok) == 0; w++ {
+			time.Sleep(time.Millisecond)
+		}
+		cc()
+		select {
+		case <-done:
+		case <-time.After(3 * time.Second):
+			res.Add(fw.Finding{Kind: "monitor", Signature: sig + " cancelled call hangs", Detail: "a call whose context was cancelled did not return after its handler had returned", Case: map[string]interface{}{"scenario": "cancelled-then-more"}})
+		}
+		for k := 1; k <= 3; k++ {
+			c := run.Go("count", tok+k, "after-cancelled")
+			if !c.Wait(3 * time.Second) {
+				res.Add(fw.Finding{Kind: "monitor", Signature: sig + " later call hangs", Detail: fmt.Sprintf("call %d after a cancelled-and-completed call did not return", k), Case: map[string]interface{}{"scenario": "cancelled-then-more"}})
+				break
+			}
+			if c.Err != nil || c.Val != c.Tok {
+				res.Add(fw.Finding{Kind: "monitor", Signature: sig + " later call wrong", Detail: fmt.Sprintf("Count(%d) issued after a cancelled-and-completed call returned (%d, %v)", c.Tok, c.Val, c.Err), Case: map[string]interface{}{"scenario": "cancelled-then-more"}})
+				break
+			}
+		}
+	}
+	scenClose(res, closer, sig)
+	time.Sleep(3 * time.Millisecond)
+	evs := run.E.RT.Events()
+	if _, err := Check(d, res, evs, ClientConn(evs), sig); err != nil {
+		return err
+	}
+	res.Count("cancelled-then-more")
+	res.Eval(true, []interface{}{"cancelled-then-more"})
+	return nil
+}
